@@ -1,6 +1,6 @@
 use crate::diagnostic_emitter::MosResult;
 use crate::impl_request_handler;
-use crate::lsp::{LspContext, RequestHandler};
+use crate::lsp::{document_path, LspContext, RequestHandler};
 use itertools::Itertools;
 use lsp_types::request::SemanticTokensFullRequest;
 use lsp_types::{
@@ -116,8 +116,9 @@ impl RequestHandler<SemanticTokensFullRequest> for SemanticTokensFullRequestHand
         params: SemanticTokensParams,
     ) -> MosResult<Option<SemanticTokensResult>> {
         if let Some(tree) = &ctx.tree {
-            let path = params.text_document.uri.to_file_path().unwrap();
-            if let Some(file) = tree.try_get_file(&path) {
+            let file = document_path(&params.text_document.uri)
+                .and_then(|path| tree.try_get_file(&path));
+            if let Some(file) = file {
                 let semtoks = emit_semantic_ast(&file.tokens);
                 let data = to_deltas(&tree.code_map, semtoks);
                 let tokens = SemanticTokens {
